@@ -353,6 +353,12 @@ def cmdC01 (st : State) : Except String (List String) := do
     match silf.passes[pj.index]? with
     | none => out := out ++ [s!"FAIL pass {pj.index}: no such pass in font"]
     | some pass =>
+      -- the pass header says what the directives of the pass say
+      for (nm, want, got) in [("flags (CollisionFix | AutoKern << 3)", pj.flags, pass.flags),
+                              ("MaxRuleLoop", pj.maxRuleLoop, pass.maxRuleLoop), ("MaxBackup", pj.maxBackup, pass.maxBackup)] do
+        match want with
+        | some w => if w != got then out := out ++ [s!"FAIL pass {pj.index}: header {nm} is {got}, the program says {w}"]
+        | none => pure ()
       let mut ri := 0
       for r in pj.rules do
         nRules := nRules + 1
